@@ -27,7 +27,7 @@ var otherVals = []string{"", "1", "42", "50%", "rtl", "en", "a b", "nofollow", "
 
 var specials = []string{"<!-- c -->", "<!--><b>-->", "<!--[if IE]><b><![endif]-->", "<!DOCTYPE html>", "<![CDATA[<b>x</b>]]>", "<?xml version=\"1.0\"?>", "<!x>", "</>", "<>", "< a>", "</ a>",
 	"<a", "<a href=\"", "<a href='x", "<!--", "<!-", "<![CDATA[", "<!doctype html SYSTEM \"x\"><b>", "<!--x--!>", "<!-- --!><i>", "</ >", "<?", "<!>", "<%x%>", "</#>", "<a/b/c>", "<b/>", "<!---->", "<!--->",
-	"<!--&gt;<script>alert(1)</script>-->", "<!---&gt;<img src=x onerror=alert(1)>-->", "<!--&#62;<iframe src=//evil>-->", "<!--&gt;--><b>", "<!--a--&gt;<i>b-->", "<!--a--!&gt;<i>b-->"}
+	"<img></img>", "<input></input>", "<img id=q></img>", "<hr></hr>", "<area></area>x", "<!--&gt;<script>alert(1)</script>-->", "<!---&gt;<img src=x onerror=alert(1)>-->", "<!--&#62;<iframe src=//evil>-->", "<!--&gt;--><b>", "<!--a--&gt;<i>b-->", "<!--a--!&gt;<i>b-->"}
 
 var extraNames = []string{"h3", "my-zzz", "x-q", "sx", "tagged", "u", "em", "scrİpt", "K", "a:b", "svg:a", "b\x00", "1a", "a=b", "a\"b", "a'b", "a<b"}
 
